@@ -80,6 +80,14 @@ def lookalike(draw):
     return draw(st.text(alphabet='0123456789eE.+-', min_size=1, max_size=8))
 
 
+big_sizes = st.sampled_from([255, 256, 257, 1023, 1024, 1025, 1026, 2048, 3071, 3072, 3073, 4096,
+                             5000, 8191, 8193, 16385, 65537])
+# (large values are built by repeating a small drawn chunk: Hypothesis caps generated sizes)
+big_binary = st.tuples(big_sizes, st.binary(min_size=1, max_size=7)).map(
+    lambda t: (t[1] * (t[0] // len(t[1]) + 1))[:t[0]])
+big_text = st.tuples(big_sizes, st.text(alphabet=st.sampled_from(list('ab0"{[ \u00e9') + ['\x1e']),
+                                        min_size=1, max_size=7)).map(
+    lambda t: (t[1] * (t[0] // len(t[1]) + 1))[:t[0]])
 payload = st.one_of(
     st.none(),
     st.text(max_size=30),
@@ -87,6 +95,7 @@ payload = st.one_of(
     st.binary(max_size=40),
     st.binary(max_size=40).map(bytearray),
     container,
+    big_binary, big_binary.map(bytearray), big_text,
 )
 flags = st.lists(st.booleans(), min_size=1, max_size=6)
 case_st = st.tuples(st.integers(0, 6), payload, flags)
